@@ -438,6 +438,11 @@ def _r1_all_results_from_the_tally(ctx, f):
             elif isinstance(s_, ast.For):
                 tg = [n_.id for n_ in ast.walk(s_.target) if isinstance(n_, ast.Name)]
                 val = s_.iter
+            elif isinstance(s_, ast.Expr) and isinstance(s_.value, ast.Call) and isinstance(s_.value.func, ast.Attribute) and isinstance(s_.value.func.value, ast.Name) \
+                    and s_.value.func.attr in ('update', 'append', 'extend', 'add', 'setdefault', '__setitem__'):
+                # a container filled in place from the tally: `consensus.update(... consensii ...)`
+                tg = [s_.value.func.value.id]
+                val = ast.Tuple(elts=list(s_.value.args) + [k_.value for k_ in s_.value.keywords], ctx=ast.Load())
             else:
                 continue
             if names_in(val) & derived and not set(tg) <= derived:
@@ -721,7 +726,16 @@ def r5(ctx):
     g = ctx.fn(SEQUTILS, 'read_to_consensus_dict')
     em = dict_emission(g)
     if em is None:
-        raise AnalysisError('read_to_consensus_dict: the per-position emission (dict comprehension or loop filling one dictionary) was not found')
+        m = _read_calls_by_interpretation(ctx, g)
+        if m is None:
+            raise AnalysisError('read_to_consensus_dict: the per-position emission (dict comprehension or loop filling one dictionary) was not found')
+        ctx.counters['interpreted_cases'] = ctx.counters.get('interpreted_cases', 0) + m[1]
+        ctx.emit('C13-R5', m[0], SEQUTILS, g, f'read_to_consensus_dict interpreted on a model read ({m[1]} option sets): every aligned base - N and quality 0 included - is reported once, with the base and the quality '
+                 'stored at its own query position' if m[0] else f'read_to_consensus_dict on a model read: {m[2]}', key='base-and-quality-same-position', witness=m[2],
+                 what='read_to_consensus_dict: base and quality of a call come from different query positions')
+        ctx.emit('C13-R5', m[0], SEQUTILS, g, 'read_to_consensus_dict reports every aligned base of the window (no filter on the base or its quality)', key='no-base-filter-per-read', nontrivial=False)
+        _r5_plain_mode(ctx)
+        return
     rd = g.args.args[0].arg
     c = em['node']
     qpos = em['target'].elts[0].id if isinstance(em['target'], ast.Tuple) and isinstance(em['target'].elts[0], ast.Name) else None
@@ -761,6 +775,47 @@ def r5(ctx):
     ctx.emit('C13-R5', not base_conds, SEQUTILS, base_conds[0] if base_conds else c, 'read_to_consensus_dict reports every aligned base of the window (no filter on the base or its quality)' if not base_conds else
              f'read_to_consensus_dict drops calls by `{src(base_conds[0])[:70]}` before the mates are compared: a filtered N (or low quality base) no longer outvotes the other mate\'s call',
              key='no-base-filter-per-read', what='read_to_consensus_dict filters calls by base / quality before mate arbitration')
+    _r5_plain_mode(ctx)
+
+
+def _read_calls_by_interpretation(ctx, g):
+    """read_to_consensus_dict run by the abstract interpreter on a model read whose bases and qualities are all different (an N and a quality 0 among them, one reference
+    position skipped by a deletion): with the optional filters off, with a window, with the cycle filters.  (ok, cases, witness) or None outside the interpreted subset"""
+    from ..consteval import run_function, Raised, Unfoldable, module_scope, Instance
+    try:
+        env = module_scope(ctx.ix, SEQUTILS)
+        seq, quals = 'ACGTNA', [10, 20, 30, 40, 2, 0]
+        pairs = [(0, 101, 'A'), (1, 102, 'c'), (2, 104, 'G'), (3, 105, 'T'), (4, 106, 'A'), (5, 107, 'a')]
+
+        def hook(ev, call, env_):
+            if isinstance(call.func, ast.Attribute) and call.func.attr == 'get_aligned_pairs':
+                return [tuple(p_) for p_ in pairs]
+            if isinstance(call.func, ast.Attribute) and call.func.attr == 'infer_query_length':
+                return 6
+            return NotImplemented
+        n = 0
+        for rev in (False, True):
+            read = Instance(attrs={'reference_name': 'c', 'query_sequence': seq, 'query_qualities': list(quals), 'seq': seq, 'qual': 'IIIIII', 'is_reverse': rev, 'is_unmapped': False})
+            for kw, keep in (({}, lambda q, r: True), ({'start': 102, 'end': 106}, lambda q, r: 102 <= r <= 106), ({'min_phred_score': 20}, lambda q, r: quals[q] >= 20)):
+                n += 1
+                got = dict(run_function(g, [read], dict(kw), env=env, call_hook=hook, budget=40000))
+                want = {r_: (seq[q_], quals[q_]) for q_, r_, _ in pairs if keep(q_, r_)}
+                seen = {}
+                for k_, v_ in got.items():
+                    pos = k_ if isinstance(k_, int) else next((x for x in k_ if isinstance(x, int)), None)
+                    seen[pos] = (v_[0], v_[1]) if isinstance(v_, (tuple, list)) and len(v_) >= 2 else v_
+                if seen != want:
+                    diff = sorted(set(seen) ^ set(want)) or [p_ for p_ in want if seen.get(p_) != want[p_]]
+                    p0 = diff[0]
+                    return (False, n, {'options': kw, 'reverse': rev, 'reference position': p0, 'reported (base, quality)': seen.get(p0), 'stored at the aligned query position': want.get(p0)})
+    except (Unfoldable, Raised):
+        return None
+    except Exception:
+        return None
+    return (True, n, None)
+
+
+def _r5_plain_mode(ctx):
     # the default mode: with dove_safe False no window is applied and single-end fragments are not refused
     f = ctx.fn(SEQUTILS, 'get_consensus_dictionaries')
     from ..util import arg as _arg
